@@ -252,3 +252,10 @@ Definition stream_decrypt (ks : nat -> N) (msg : list N) : list N := stream_encr
 (* ---------- noneCrypt ---------- *)
 Definition none_encrypt (msg : list N) : list N := msg.
 Definition none_decrypt (msg : list N) : list N := msg.
+
+(* what one call returns according to the specification: a function of (E, iv, message) only *)
+Definition cfb_op (blocksize : nat) (E : list N -> list N) (iv : list N) (o : op) : list N :=
+  match o with
+  | Enc m => cfb_enc blocksize E (firstn blocksize iv) m
+  | Dec m => cfb_dec blocksize E (firstn blocksize iv) m
+  end.
